@@ -393,7 +393,7 @@ Definition parse_tokens (fuel : nat) (toks : list token) : outcome :=
 
 (* ---------- static checks over the translated tables (finite) ---------- *)
 Definition nstates : nat := List.length yyPact.
-Definition ntokens : Z := Z.of_nat (List.length yyTok2) + 2.        (* internal token numbers 1 .. *)
+Definition ntokens : Z := fold_left Z.max (yyTok1 ++ yyTok2)%list 0 + 1.   (* internal token numbers: 0 .. the largest one in the lexer's tables *)
 Definition zrange (n : nat) : list Z := map Z.of_nat (seq 0 n).
 
 Definition decision_ok (d : decision) : bool :=
